@@ -10,9 +10,15 @@ STRENGTHENED = {
  "C08-m2": "first run: missed (needs >= 65536 nodes so that set_var_order takes the concurrent bubble sort). Added c08_large (786k-node BDD on 4 workers, window permutations, order/minimal-swap check, full structural audit, sampled evaluations, canonicity).",
  "C15-m2": "first run: missed (needs a binary node whose variable code is 'relative, offset 0' above an inner child; random byte mutations did not hit it). Added an exhaustive single-byte sweep (every position x every value) of the node section of small binary-mode corpus files + six tiny binary files to the corpus.",
  "C20-m1": "first run: missed (pointer-backend NodeSet undercounts only beyond 32768 nodes). Added a 196k-node corpus item per kind to c20_digest: node_count() vs an independent traversal, digest compared across variants.",
+
+ "C06-r2m1": "round 2, first run: caught by C09 only (ZBDD subset/change cache lookup keyed by level, insert by variable; needs a reordering). Histories (hist.rs) now issue ZBDD set operations (subset0/subset1/change/union/intsec/diff) and C06's hostile generator repeats one set operator for every variable before and after a reordering.",
+ "C06-r2m2": "round 2, first run: missed (non-atomic substitution-id counter: needs Subst::new on several threads at once). Added c06_subst_ids: 4 threads x 20000 Subst::new per round, ids compared for uniqueness through the public Substitution::id(), every 64th applied and checked against the model.",
+ "C05-r2m1": "round 2, first run: caught by C19 only (EdgeHashMap::insert leaks a reference when the key exists: only the DDDMP exporter inserts an edge twice). Histories now contain DDDMP (ascii/binary) and DOT exports of live handles, so the reference-count audit sees the leak in C01/C03/C05.",
+ "C07-r2m2": "round 2, first run: caught by C05 (c05_bg) only (background collector thread keeps a stale free-list head: needs two automatic collections). C07 now also runs c05_bg and every third free-running stress round uses a 150..600-slot store so that the background collector runs repeatedly alongside several application threads.",
+ "C14-r2m2": "round 2, first run: missed (DDDMP import leaks already resolved roots when negating a later complemented root fails). Added c14_import: 3-root files exported from bcdd/bdd/zbdd imported into managers of every capacity 0..demand+2 with audit + teardown after each.",
 }
 rows = []
-for d in sorted(glob.glob(f"{ROOT}/seeded/C*-m*")):
+for d in sorted(glob.glob(f"{ROOT}/seeded/C*-*m*")):
     sid = os.path.basename(d)
     mp = os.path.join(d, "meta.json")
     if not os.path.exists(mp):
